@@ -135,12 +135,16 @@ SkipLines == <<"# plain comment", "  # indented comment", "#tight", "#", "# g fa
 X(i) == St("x", <<>>, <<>>, SkipLines[i])
 V(i) == <<i * 1024, (i % 3) * 512 - 256, 0 - i>>
 F(a, b, c) == St("f", <<>>, <<<<a, 0, 0>>, <<b, 0, 0>>, <<c, 0, 0>>>>, "")
+\* a face with texture coordinates; VT(1) has v = 0, which a text may write in the short form "vt u"
+VT(i) == <<i * 256, (i - 1) * 512>>
+Ft(a, b, c) == St("f", <<>>, <<<<a, 1, 0>>, <<b, 2, 0>>, <<c, 1, 0>>>>, "")
 GName(d) == GroupNameRead(Items(Word(nm.c, nm.pos, d), nm.shape))
 MName(d) == MtlNameWritten(Items(Word(nm.c, nm.pos, d), nm.shape))
 Text == <<X(1), X(2), St("v", V(1), <<>>, ""), X(3), St("v", V(2), <<>>, ""), St("v", V(3), <<>>, ""), St("v", V(4), <<>>, ""),
+          St("vt", VT(1), <<>>, ""), St("vt", VT(2), <<>>, ""),
           X(4), X(10), St("g", <<>>, <<>>, GName("1")), X(5), X(11), St("usemtl", <<>>, <<>>, MName("1")), X(6),
           F(1, 2, 3), X(7), F(2, 3, 4), X(12),
-          St("g", <<>>, <<>>, GName("2")), X(8), St("usemtl", <<>>, <<>>, MName("2")), X(9), F(4, 3, 1), X(13)>>
+          St("g", <<>>, <<>>, GName("2")), X(8), St("usemtl", <<>>, <<>>, MName("2")), X(9), Ft(4, 3, 1), X(13)>>
 LdCase == [k |-> "ld", tag |-> "names", enc |-> "lat", q |-> Q, nm |-> nm, gen |-> Text]
 ValidText == Denote(Text).ok /\ Len(Denote(Text).groups) = 2
 
